@@ -5,6 +5,36 @@ From PAV Require Import Base.Res Base.Check Gen.Gen_layout Model.C19.
 Import ListNotations.
 Local Open Scope Z_scope.
 
+(* hand model of the Layout2D glue (autoarray/layout/layout.py), on top of the generated functions:
+   the three regions are rotated / extracted in the code's order, the first exception wins *)
+Definition rbind {A B} (x : res A) (f : A -> res B) : res B := match x with Ok a => f a | Raise e => Raise e end.
+Definition lay_rot (l : layout) (c : reg1) : res layout :=
+  let '(s, c0, po, sp, so) := l in
+  rbind (rotate_region_via_roe_corner_from po s c) (fun po' =>
+  rbind (rotate_region_via_roe_corner_from sp s c) (fun sp' =>
+  rbind (rotate_region_via_roe_corner_from so s c) (fun so' => Ok (s, c, po', sp', so')))).
+Definition lay_ext (l : layout) (e : reg2) : res layout :=
+  let '(s, c0, po, sp, so) := l in
+  rbind (region_after_extraction po e) (fun po' =>
+  rbind (region_after_extraction sp e) (fun sp' =>
+  rbind (region_after_extraction so e) (fun so' => Ok (s, c0, po', sp', so')))).
+
+(* model of a history on one array object: the state is (contents, corner, the array returned by the latest read);
+   reads are the GENERATED rotation of the current contents, writes are numpy slice assignments, every returned
+   array is a fresh one (an edit of it does not touch the contents, a write does not touch it) *)
+Fixpoint arun (steps : list astep) (m : list (list Z)) (c : reg1) (last : option (list (list Z)))
+  : list (option (list (list Z))) :=
+  match steps with
+  | [] => []
+  | ARead :: t => let o := rotate_array_via_roe_corner_from m c in o :: arun t m c o
+  | ASlice r :: t => let o := Some (slice2 m r) in o :: arun t m c o
+  | AWrite r v :: t => arun t (fill2 m r v) c last
+  | AEditOut r v :: t => let o := option_map (fun a => fill2 a r v) last in o :: arun t m c o
+  | ALast :: t => last :: arun t m c last
+  | ACorner c' :: t => arun t m c' last
+  | ADerive :: t => arun t m c last
+  end.
+
 Definition agree (k : case) : bool :=
   match k with
   | KInit1 r out => r1e (Region1D_init r) out
@@ -41,6 +71,10 @@ Definition agree (k : case) : bool :=
           end
       | None => false
       end
+  | KLayRot l c out => rle (lay_rot l c) out
+  | KLayExt l e out => rle (lay_ext l e) out
+  | KSlice m r out => arr_eqb (slice2 m r) out
+  | KHistA m0 c0 steps outs => list_eqb oarr_eqb (arun steps m0 c0 None) outs
   end.
 
 Definition check (k : case) : nat := verdict (agree k) (spec_ok k).
